@@ -42,7 +42,8 @@ ReplaceCases(tier) ==
             wi == ((i - 1) \div Len(B)) + 1
         IN [id |-> i, defs |-> <<>>, trans |-> C05_Trans,
             cmds |-> <<[kind |-> "replace", amt |-> [k |-> "all"], body |-> B[bi], with |-> W[wi]]>>,
-            sigma |-> SetToSeq(Sg), lo |-> 1, hi |-> IF tier = "quick" THEN 3 ELSE 5]]
+            \* thorough: single items on all texts up to length 5, pairs of items up to length 4
+            sigma |-> SetToSeq(Sg), lo |-> 1, hi |-> IF tier = "quick" THEN 3 ELSE IF Len(W[wi]) <= 1 THEN 5 ELSE 4]]
 
 (* C06: command lists x file sets x modes x stale .vored                    *)
 FileCases(tier) ==
